@@ -197,7 +197,7 @@ theorem code_matches_model :
       "defer u.clientsMu.Unlock()",
       "select { case <-u.quit: conn.Close() return nil, errors.New(upstreamExited) default: }",
       "if existing, ok := u.loadClients()[addr]; ok { conn.Close() return existing, nil }",
-      "go func() { c.Start() u.removeClient(addr) }()",
+      "go func() { c.Start() u.removeEndedClient(addr, c) }()",
       "u.addClientLocked(addr, c)",
       "return c, nil"] ∧
     Gen.Upstream.removeClient =
